@@ -38,6 +38,7 @@ type Profile struct {
 	NumericGrid                  bool // numeric constants from a small grid (ties likely)
 	IntOnlyBounds                bool // integer schemas get integral bounds only
 	FractionalIntBounds          bool // integer schemas may state non-integral bounds
+	NullItems                    bool // arrays of null-typed items
 	MinSizedBounds               bool // integer bounds near sized-int limits
 	DefsOnlyPrimitivesAndObjects bool
 	DefWeights                   map[string]int // overrides the kinds of definitions
@@ -191,7 +192,7 @@ func (c *Ctx) Node(t *rapid.T, depth int, pos Pos, arrDepth int) *model.Node {
 		}
 		cs = append(cs, kindChoice{"any", p.WAny})
 	}
-	if pos == PosProp {
+	if pos == PosProp || (pos == PosItem && p.NullItems) {
 		cs = append(cs, kindChoice{"null", p.WNull})
 	}
 	var n *model.Node
@@ -292,13 +293,17 @@ func (c *Ctx) numConst(t *rapid.T, kind model.Kind, label string) float64 {
 		return float64(rapid.IntRange(-20, 20).Draw(t, label+"fi")) + 0.5
 	}
 	if kind == model.KInteger || p.IntOnlyBounds {
-		if p.NumericGrid || rapid.IntRange(0, 2).Draw(t, label+"g") == 0 {
+		if g := rapid.IntRange(0, 9).Draw(t, label+"g"); (p.NumericGrid && g < 6) || (!p.NumericGrid && g < 3) {
 			return rapid.SampledFrom(grid).Draw(t, label+"v")
 		}
 		return float64(rapid.IntRange(-1000, 1000).Draw(t, label+"i"))
 	}
-	if p.NumericGrid || rapid.IntRange(0, 2).Draw(t, label+"g") == 0 {
+	if g := rapid.IntRange(0, 9).Draw(t, label+"g"); (p.NumericGrid && g < 6) || (!p.NumericGrid && g < 3) {
 		return rapid.SampledFrom(fgrid).Draw(t, label+"v")
+	}
+	if rapid.IntRange(0, 3).Draw(t, label+"long") == 0 {
+		// many significant digits, still an exact float64 (k/1024): shows precision loss in emitted literals
+		return float64(rapid.Int64Range(-(1<<36), 1<<36).Draw(t, label+"ld")) / 1024
 	}
 	// dyadic rationals: exactly representable, exact arithmetic under multipleOf
 	return float64(rapid.IntRange(-4000, 4000).Draw(t, label+"d")) / 8
@@ -337,7 +342,7 @@ func (c *Ctx) Numeric(t *rapid.T, kind model.Kind, pos Pos) *model.Node {
 		} else if pos == PosDef && p.avoid("numbers.named_float_multipleof") {
 			// excluded by a known finding
 		} else {
-			n.MultipleOf = model.FloatP(rapid.SampledFrom([]float64{0.25, 0.5, 1, 1.5, 2, 2.5, 8}).Draw(t, "mult"))
+			n.MultipleOf = model.FloatP(rapid.SampledFrom([]float64{0.25, 0.5, 1, 1.5, 2, 2.5, 8, 16777217, 0.0009765625, 1025.0 / 1024}).Draw(t, "mult"))
 		}
 	}
 	if p.MinSizedBounds {
@@ -526,7 +531,7 @@ func (c *Ctx) Object(t *rapid.T, depth int) *model.Node {
 // names (overlap variants are built by the C11 generator).
 func (c *Ctx) Composite(t *rapid.T, kind model.Kind, depth int) *model.Node {
 	n := &model.Node{Kind: kind}
-	cnt := rapid.IntRange(1, 3).Draw(t, "nbranches")
+	cnt := rapid.IntRange(1, 4).Draw(t, "nbranches")
 	sib := map[string]bool{}
 	save := *c.P
 	defer func() { *c.P = save }()
@@ -543,6 +548,22 @@ func (c *Ctx) Composite(t *rapid.T, kind model.Kind, depth int) *model.Node {
 			}
 		}
 		n.Branches = append(n.Branches, b)
+	}
+	if kind == model.KAllOf && rapid.IntRange(0, 9).Draw(t, "reqonly") < 3 {
+		// the idiom allOf: [{...properties...}, {"required": [...]}]: a branch that only lists required
+		var optional []string
+		for _, b := range n.Branches {
+			for _, p := range b.Props {
+				if !b.IsRequired(p.Name) {
+					optional = append(optional, p.Name)
+				}
+			}
+		}
+		if len(optional) > 0 {
+			k := rapid.IntRange(1, min(2, len(optional))).Draw(t, "reqonlyn")
+			pick := rapid.Permutation(optional).Draw(t, "reqonlypick")[:k]
+			n.Branches = append(n.Branches, &model.Node{Kind: model.KObject, NoType: true, Required: pick})
+		}
 	}
 	return n
 }
@@ -584,6 +605,10 @@ func (c *Ctx) DefNode(t *rapid.T) *model.Node {
 	case "enum":
 		return c.Enum(t)
 	case "array":
+		if p.avoid("refs.array_definition") {
+			// known finding: a named array definition validates nothing
+			return c.Object(t, 2)
+		}
 		return c.Array(t, 2, 1)
 	}
 	return &model.Node{Kind: model.KBoolean}
